@@ -233,6 +233,7 @@ def stepLim (st : State) (w : List String) : State × String :=
       else if (match v with | some w => !s.keys.contains w | none => false) then (st, "invalid:victim-not-present")
       else if v.isSome && (s.keys.contains k || s.keys.length < s.maxSize) then (st, "invalid:evicted-below-capacity")
       else
+        -- the victim is the implementation's choice (map iteration order); `Lim.get` mirrors the code
         let s' := s.get k v
         let bound := if s.maxSize < 1 then 1 else s.maxSize
         if s'.keys.length > bound then ({ st with lim := s', limPend := none }, "invalid:over-capacity")
